@@ -172,7 +172,8 @@ def emit(name, text):
     os.makedirs(OUT, exist_ok=True)
     path = os.path.join(OUT, name)
     if os.path.exists(path) and open(path).read() == text: return
-    open(path, 'w').write(text)
+    tmp = path + '.tmp%d' % os.getpid()
+    open(tmp, 'w').write(text); os.replace(tmp, path)
 
 def write_profile(prof, rmw_decides, problems):
     os.makedirs(OUT, exist_ok=True)
